@@ -18,9 +18,11 @@ MANIFEST = dict(
               'regenerated from choreo.py incl. string-pool construction and sort site, binary choreo scenes as layouts with a round-trip '
               'theorem for every layout; quoted-field lexing for the text writers; field splitting of SMD lines; the scene summary) + five '
               'fail-closed ast translators (struct formats with the value each field carries on both sides, sort and version sites, line / '
-              'field templates, operator-stack census, width paths of every binary writer/reader pair) + vm_compute correspondence on six '
-              'models + round-trip / second-generation oracle search on all eight writers',
-    text='Theorems in Props/C20.v (43): cmdseq.parse(cmdseq.write(v)) = v and byte-identical second generation for every configuration '
+              'field templates, operator-stack census with the version-2 test of Sound.export, the VMT quoting decision table and file '
+              'frame, width paths of every binary writer/reader pair; all normalise before matching: struct spellings, helper functions, '
+              'early returns, locals) + vm_compute correspondence on eight models (two exhaustive on a small scope) + round-trip / '
+              'second-generation / observer-effect oracle search on all eight writers',
+    text='Theorems in Props/C20.v (62): cmdseq.parse(cmdseq.write(v)) = v and byte-identical second generation for every configuration '
          'satisfying the obligations regenerated from cmdseq.py; the scenes.image writer over the configuration regenerated from choreo.py '
          'produces the bytes of the container model for both input forms whatever the dict keys are, parses back (header, pool through '
          'the offset table, CRC-sorted table, v2/v3 summaries, blobs; LZMA as a hypothesis pair), its table is sorted by the stored '
@@ -32,16 +34,28 @@ MANIFEST = dict(
          'export_binary and of parse_binary; text writers: a field written escaped between quotes is lexed back whatever it holds, a raw '
          'quoted field when it has no quote / backslash / line break, and the field census of choreo text / soundscripts / VMT regenerated '
          'from the source satisfies the matching boolean; soundscript operator-stack blocks are paired with the attribute of the same '
-         'name on both sides; SMD: conversions never touch and every data line splits at whitespace into exactly its fields; '
+         'name on both sides; soundscript operator stacks behind lazy properties: for every census passing the guard / block booleans '
+         '(discharged for today\'s source) what Sound.export writes does not depend on which lazy properties were read before, the same '
+         'object exports identically twice, the reader gives the value back and the second generation is identical (refuted: a presence '
+         'test `is not None`, a test that forgets a stack, a block guarded by presence); VMT: a name or value vmt._needs_quotes lets through '
+         'is lexed back as that one string, a whole parameter line as name / value / newline, and the whole file of a parameter-only '
+         'material as shader / { / the pairs in order / } for every decision table covering the empty string, leading / and #, and every '
+         'delimiter (table regenerated from vmt.py and tokenizer.py), so the file determines the material; every line template of '
+         'Sound.export, regenerated as self-delimiting items, is lexed back as exactly its keywords and field values for all field values '
+         '(quoted raw fields without quote / backslash / line break, bare fields bare words); SMD: conversions never touch and every data line splits at whitespace into exactly its fields; '
          'Entry.from_scene: last-speak <= duration, sounds strictly sorted with exactly the used sounds, order independence. '
-         'cmdseq, scenes.image (container, pool+sort), binary scene layout and scene summary models are compared with the implementation '
-         'byte for byte / value for value on every run. All eight writers are searched: generated values inside each format\'s alphabet, '
-         'write -> read -> equal, write again -> identical, plus the sample files under tests/.',
+         'cmdseq, scenes.image (container, pool+sort), binary scene layout, scene summary, soundscript stacks (all 128 small states x '
+         'histories of lazy reads) and VMT quoting (all strings of length <= 2 over 25 characters, parameter lines, whole files) models '
+         'are compared with the implementation byte for byte / value for value on every run. All eight writers are searched: generated values inside each format\'s alphabet, '
+         'write -> read -> equal, write again -> identical, the same with every (lazy) property of the value read first or the value '
+         'written once before (observer effect), plus the sample files under tests/.',
     note='Partial: proof level for cmdseq (complete), the scenes.image container with pool and sort, binary scenes at raw-field level '
          '(the float32 / byte quantisation of values and the Python objects behind the raw fields are outside the model), quoted fields of '
-         'the text writers at tokenizer level (not whole text files), SMD data lines at word level; soundscript / VMT / PCF / SMD / choreo '
-         'text whole-file round trips are decided by search only. Trusted: Coq kernel + vm_compute, translate/c20_formats.py, hand models '
-         'Fmt/CmdSeq.v, Fmt/ScenesImage.v, Fmt/ChoreoBin.v layouts, Fmt/SceneSummary.v (each tied by differential runs; the layouts also by '
+         'the text writers at tokenizer level, soundscript operator stacks at the level of which blocks exist with which children, VMT '
+         'files of parameter-only materials at token level (quoted strings without backslash; blocks / proxies and what Material.parse '
+         'builds from the tokens are searched), SMD data lines at word level; soundscript / PCF / SMD / choreo text whole-file round '
+         'trips are decided by search only. Trusted: Coq kernel + vm_compute, translate/c20_formats.py, hand models '
+         'Fmt/CmdSeq.v, Fmt/ScenesImage.v, Fmt/ChoreoBin.v layouts, Fmt/SceneSummary.v, Fmt/SndStacks.v, Fmt/VmtQuote.v (each tied by differential runs; the layouts also by '
          'kernel-checked path equality with the generated paths), the tokenizer model KV/KvLex.v of C01, CPython struct/lzma/zlib.crc32. '
          'Known finding: text VCD flex-animation blocks are written but the reader raises NotImplementedError.',
 )
@@ -49,7 +63,7 @@ MANIFEST = dict(
 IMP_CS = ['Coq.Lists.List', 'Coq.NArith.NArith', 'Coq.ZArith.ZArith', 'Coq.Bool.Bool', 'SV.Fmt.CmdSeq', 'SV.Gen.CmdSeqFmt_gen']
 IMP_SMD = ['Coq.Lists.List', 'Coq.NArith.NArith', 'Coq.Arith.PeanoNat', 'Coq.Bool.Bool', 'SV.Fmt.SmdTpl', 'SV.Fmt.SmdWords', 'SV.Gen.SmdTpl_gen']
 IMP_IMG = ['Coq.Lists.List', 'Coq.NArith.NArith', 'Coq.Bool.Bool', 'SV.Fmt.ScenesImage']
-IMP_TXT = ['Coq.Lists.List', 'Coq.NArith.NArith', 'Coq.Bool.Bool', 'SV.Fmt.TextFields', 'SV.Gen.TextFields_gen']
+IMP_TXT = ['Coq.Lists.List', 'Coq.NArith.NArith', 'Coq.Bool.Bool', 'SV.Fmt.SndStacks', 'SV.Fmt.VmtQuote', 'SV.Fmt.TextLines', 'SV.Fmt.TextFields', 'SV.Gen.TextFields_gen']
 IMP_CB = ['Coq.Lists.List', 'Coq.NArith.NArith', 'Coq.Bool.Bool', 'Coq.Arith.PeanoNat', 'SV.Fmt.ChoreoBin', 'SV.Gen.ChoreoBin_gen']
 IMP_IMGCFG = ['Coq.Lists.List', 'Coq.NArith.NArith', 'Coq.Bool.Bool', 'SV.Fmt.ScenesImage', 'SV.Fmt.ScenesImageCfg', 'SV.Gen.ScenesImg_gen']
 
@@ -96,6 +110,46 @@ def par_eval(ck: Ck, jobs: list[tuple]) -> list:
         return []
     with ThreadPoolExecutor(max_workers=min(6, len(jobs))) as ex:
         return list(ex.map(lambda j: ck.coq_eval(j[0], j[1], name=j[2], preamble=j[3]), jobs))
+
+
+# ---- escalation per format family.  A broken tie switches the stages OF THE FORMAT IT CONCERNS to their thorough budget (that is
+# where the failing input is to be found); the other formats keep the quick budget, so a run with a real fault stays in minutes.
+# '*' (a tie that cannot be attributed: failed build, hygiene, unevaluable group) escalates everything, as Ck.budget would.
+FAMILIES = ('cmdseq', 'smd', 'sndscript', 'vmt', 'pcf', 'vcd-text', 'vcd-binary', 'scenes-image')
+FAMILY_OF_OBLIGATION = (('cmdseq_', 'cmdseq'), ('smd_', 'smd'), ('sndscript_', 'sndscript'), ('vmt_', 'vmt'), ('vcd_text_', 'vcd-text'),
+                        ('vcd_binary_', 'vcd-binary'), ('image_', 'scenes-image'))
+
+
+def tie_families(tie: str) -> set[str]:
+    """The format families a broken tie (one string of ck.tie_broken) concerns."""
+    if tie.startswith('instance obligations about '):
+        names = tie.split(' fail: ', 1)[-1].split(', ')
+        fams = {f for n in names for pre, f in FAMILY_OF_OBLIGATION if n.startswith(pre)}
+        return fams or {'*'}
+    fams = set()
+    for word, fs in (('cmdseq', ('cmdseq',)), ('CmdSeqFmt_gen', ('cmdseq',)), ('SmdTpl_gen', ('smd',)), ('scenes.image', ('scenes-image',)),
+                     ('ScenesImg_gen', ('scenes-image',)), ('scene summary', ('scenes-image',)), ('soundscript', ('sndscript',)),
+                     ('VMT', ('vmt',)), ('binary choreo', ('vcd-binary',)), ('ChoreoBin_gen', ('vcd-binary',)),
+                     ('TextFields_gen', ('sndscript', 'vmt', 'vcd-text'))):
+        if word in tie:
+            fams.update(fs)
+    return fams or {'*'}
+
+
+def escalated(ck: Ck) -> list[str]:
+    fams = set()
+    for t in ck.tie_broken:
+        fams |= tie_families(t)
+    esc = sorted(fams)
+    ck.extra['escalated_families'] = esc
+    return esc
+
+
+def bud(ck: Ck, fams: tuple[str, ...], quick: int, thorough: int) -> int:
+    if ck.thorough:
+        return thorough
+    esc = escalated(ck)
+    return thorough if ('*' in esc or any(f in esc for f in fams)) else quick
 
 
 def rle(b: bytes) -> str:
@@ -196,10 +250,9 @@ def cs_nonrepresentable(rng: random.Random, spec: dict) -> dict:
     return spec
 
 
-def corr_cmdseq_write(ck: Ck) -> list[tuple[dict, bytes]]:
-    n = ck.budget(40, 600)
+def corr_cmdseq_write(ck: Ck, files: list[tuple[dict, bytes]]):
+    n = bud(ck, ('cmdseq',), 30, 600)
     cases = []
-    files = []
     for i in range(n):
         spec = U.cmdseq_gen(ck.rng)
         if i % 4 == 3:
@@ -223,18 +276,17 @@ def corr_cmdseq_write(ck: Ck) -> list[tuple[dict, bytes]]:
         part = cases[lo:lo + 45]
         lit = coq_list(f'({cs_coq_value(s)}, {e})' for s, e in part)
         jobs.append((IMP_CS, [f'bad_idx (fun c : seqs * option (list N) => onl_eqb (write gen_cfg (fst c)) (snd c)) 0 {lit}'], f'cswrite{lo}', PRE_CS))
-    for lo, vals in zip(range(0, len(cases), 45), par_eval(ck, jobs)):
+    for lo, vals in zip(range(0, len(cases), 45), (yield jobs)):
         if vals is None:
             ck.obligation('correspondence:cmdseq-write', False, 'model could not be evaluated')
             ck.tie_broken.append('correspondence cmdseq write: model evaluation failed')
-            return files
+            return
         bad += [lo + i for i in parse_coq_N_list(vals[0])]
     ck.obligation('correspondence:cmdseq-write', not bad,
                   f'{len(cases)} values (1 in 4 outside the alphabet): model write (vm_compute) vs cmdseq.write bytes/error: {len(bad)} disagreements')
     if bad:
         ck.tie_broken.append('correspondence cmdseq write (Fmt/CmdSeq.v write vs srctools.cmdseq.write)')
         ck.extra['cmdseq_write_disagreement'] = {'value': cases[bad[0]][0], 'impl': cases[bad[0]][1][:400]}
-    return files
 
 
 VERSION_TAGS = [0.2, 0.1, 0.19999999, 0.2000001, 0.5, 1.0, 0.0, -0.0, -1.0, float('nan'), float('inf'), float('-inf'), 1e-45, 3.0e38]
@@ -302,7 +354,7 @@ def cs_mutate(rng: random.Random, data: bytes) -> tuple[str, bytes]:
 
 
 def corr_cmdseq_parse(ck: Ck, files: list[tuple[dict, bytes]]) -> None:
-    n = ck.budget(60, 800)
+    n = bud(ck, ('cmdseq',), 40, 800)
     cases = []
     base = [d for _, d in files if len(d) < 6000] or [U.cmdseq_write({})]
     for i in range(n):
@@ -323,7 +375,7 @@ def corr_cmdseq_parse(ck: Ck, files: list[tuple[dict, bytes]]) -> None:
         part = cases[lo:lo + 60]
         lit = coq_list(f'(unrle {rle(d)}, {e})' for _, d, e in part)
         jobs.append((IMP_CS, [f'bad_idx (fun c : list N * option (list N) => onl_eqb (option_map flat (parse gen_cfg (fst c))) (snd c)) 0 {lit}'], f'csparse{lo}', PRE_CS))
-    for lo, vals in zip(range(0, len(cases), 60), par_eval(ck, jobs)):
+    for lo, vals in zip(range(0, len(cases), 60), (yield jobs)):
         if vals is None:
             ck.obligation('correspondence:cmdseq-parse', False, 'model could not be evaluated')
             ck.tie_broken.append('correspondence cmdseq parse: model evaluation failed')
@@ -392,7 +444,7 @@ def image_case(rng: random.Random):
 def corr_image(ck: Ck) -> None:
     from srctools import binformat
     from srctools.choreo import save_scenes_image_sync, parse_scenes_image
-    n = ck.budget(45, 600)
+    n = bud(ck, ('scenes-image',), 24, 600)
     wcases = []
     pcases = []
     for _ in range(n):
@@ -456,21 +508,8 @@ def corr_image(ck: Ck) -> None:
         part = wcases[lo:lo + 50]
         lit = coq_list(f'({a}, {b})' for a, b, _ in part)
         jobs.append((IMP_IMG, [f'bad_idx (fun c : (N * list (list N) * list entry) * list N => let \'(v, pool, es) := fst c in nl_eqb (img_write_py v pool es) (snd c)) 0 {lit}'], f'imgwrite{lo}', PRE_IMG))
-    for lo, vals in zip(range(0, len(wcases), 50), par_eval(ck, jobs)):
-        if vals is None:
-            ck.obligation('correspondence:scenes-image-write', False, 'model could not be evaluated')
-            ck.tie_broken.append('correspondence scenes.image write: model evaluation failed')
-            return
-        bad += [lo + i for i in parse_coq_N_list(vals[0])]
-    ck.obligation('correspondence:scenes-image-write', not bad,
-                  f'{len(wcases)} container-level images (shared pool, raw and LZMA-stored blobs, v2/v3, entries in random order): '
-                  f'model img_write_py vs save_scenes_image_sync bytes: {len(bad)} disagreements')
-    if bad:
-        ck.tie_broken.append('correspondence scenes.image write (Fmt/ScenesImage.v img_write_py vs save_scenes_image_sync)')
-        ck.extra['image_write_disagreement'] = wcases[bad[0]][2]
     # reader: compare success/failure and the flattened entries (the decompressed payload is compared for raw blobs only:
     # the model returns the stored blob, so LZMA-stored payloads are compared on the stored bytes)
-    bad = []
     plits = []
     for v, exp in pcases:
         if exp[0] == 'err':
@@ -489,11 +528,25 @@ Definition flat_img2 (r : N * list (list N) * list pentry) : list N :=
   let '(v, pool, ps) := r in v :: N.of_nat (length (dict_of ps)) :: flat_map flat_p2 (dict_of ps).
 '''
     fixed = plits
-    jobs = []
+    jobs_p = []
     for lo in range(0, len(fixed), 70):
         part = fixed[lo:lo + 70]
-        jobs.append((IMP_IMG, [f'bad_idx (fun c : list N * option (list N) => onl_eqb (option_map flat_img2 (img_parse (fst c))) (snd c)) 0 {coq_list(part)}'], f'imgparse{lo}', pre))
-    for lo, vals in zip(range(0, len(fixed), 70), par_eval(ck, jobs)):
+        jobs_p.append((IMP_IMG, [f'bad_idx (fun c : list N * option (list N) => onl_eqb (option_map flat_img2 (img_parse (fst c))) (snd c)) 0 {coq_list(part)}'], f'imgparse{lo}', pre))
+    allv = yield jobs + jobs_p
+    for lo, vals in zip(range(0, len(wcases), 50), allv[:len(jobs)]):
+        if vals is None:
+            ck.obligation('correspondence:scenes-image-write', False, 'model could not be evaluated')
+            ck.tie_broken.append('correspondence scenes.image write: model evaluation failed')
+            return
+        bad += [lo + i for i in parse_coq_N_list(vals[0])]
+    ck.obligation('correspondence:scenes-image-write', not bad,
+                  f'{len(wcases)} container-level images (shared pool, raw and LZMA-stored blobs, v2/v3, entries in random order): '
+                  f'model img_write_py vs save_scenes_image_sync bytes: {len(bad)} disagreements')
+    if bad:
+        ck.tie_broken.append('correspondence scenes.image write (Fmt/ScenesImage.v img_write_py vs save_scenes_image_sync)')
+        ck.extra['image_write_disagreement'] = wcases[bad[0]][2]
+    bad = []
+    for lo, vals in zip(range(0, len(fixed), 70), allv[len(jobs):]):
         if vals is None:
             ck.obligation('correspondence:scenes-image-parse', False, 'model could not be evaluated')
             ck.tie_broken.append('correspondence scenes.image parse: model evaluation failed')
@@ -522,7 +575,7 @@ def corr_image_pool(ck: Ck) -> None:
     entries sharing a pool plus scene-backed entries, values struct.pack refuses."""
     from srctools import binformat
     from srctools.choreo import Entry, CRC, save_scenes_image_sync
-    n = ck.budget(40, 300)
+    n = bud(ck, ('scenes-image',), 30, 300)
     cases = []
     for _ in range(n):
         rng = ck.rng
@@ -644,7 +697,7 @@ def corr_image_pool(ck: Ck) -> None:
         lit = coq_list(c for c, _ in part)
         jobs.append((IMP_IMGCFG, ['bad_idx (fun c : (bool * N) * list (list N) * list (N * sentry) * option (list N) => '
                                   'let \'(dv, p0, kes, e) := c in onl_eqb (img_save_s si_gen_cfg (fst dv) (snd dv) p0 kes) e) 0 ' + lit], f'imgpool{lo}', PRE))
-    for lo, vals in zip(range(0, len(cases), 40), par_eval(ck, jobs)):
+    for lo, vals in zip(range(0, len(cases), 40), (yield jobs)):
         if vals is None:
             ck.obligation('correspondence:scenes-image-pool-and-sort', False, 'model could not be evaluated')
             ck.tie_broken.append('correspondence scenes.image pool/sort: model evaluation failed')
@@ -657,6 +710,248 @@ def corr_image_pool(ck: Ck) -> None:
     if bad:
         ck.tie_broken.append('correspondence scenes.image pool/sort (Fmt/ScenesImageCfg.v img_save_s over Gen/ScenesImg_gen.v vs save_scenes_image_sync)')
         ck.extra['image_pool_disagreement'] = cases[bad[0]][1]
+
+
+
+# ================================================================================================ soundscript operator stacks
+
+PRE_SNDSTK = PRE + '''
+Definition stk_n (s : stk) : N := match s with SStart => 0 | SUpdate => 1 | SStop => 2 end.
+Definition flat_o (o : out N) : list N :=
+  (if o_v2 o then 1 else 0) :: N.of_nat (length (o_blocks o)) :: flat_map (fun p => stk_n (fst p) :: N.of_nat (length (snd p)) :: snd p) (o_blocks o).
+Definition flat_f (v : option (list N)) : list N := match v with None => [0] | Some l => (1 + N.of_nat (length l)) :: l end.
+Definition flat_s (x : sound N) : list N := (if force x then 1 else 0) :: flat_f (f_start x) ++ flat_f (f_update x) ++ flat_f (f_stop x).
+Definition okc (c : sound N * list stk * option (list N * list N * list N)) : bool :=
+  let '(x0, ts, e) := c in
+  let x := touches ts x0 in
+  let '(o1, x1) := SndStacks.export snd_v2_guard snd_stack_blocks x in
+  let '(o2, _) := SndStacks.export snd_v2_guard snd_stack_blocks x1 in
+  match e with Some (e1, e2, e3) => nl_eqb (flat_o o1) e1 && nl_eqb (flat_o o2) e2 && nl_eqb (flat_s (SndStacks.parse o1)) e3 | None => false end.
+'''
+
+
+def corr_snd_stacks(ck: Ck) -> None:
+    """`SndStacks.export snd_v2_guard snd_stack_blocks` / `parse` (Fmt/SndStacks.v over the census regenerated from sndscript.py) vs
+    Sound.export / Sound.parse_one on EVERY small state (force flag x each stack None / empty / one child / two children = 128) under
+    histories that read the lazy properties first: what is written (version-2 keys, which blocks with which children), what a second
+    export of the same object writes, and what the reader builds from the first output."""
+    from srctools.keyvalues import Keyvalues
+    from srctools.sndscript import Sound
+    tr = ck.extra.get('translated', {}).get('TextFields_gen', {})
+    side = tr.get('stack_model')
+    if not side:
+        ck.obligation('correspondence:sndscript-stacks', False, 'no stack census')
+        return
+    fields = side['stack_fields']                                   # private fields in reader order = SStart, SUpdate, SStop
+    pub_of = {f: pubname for pubname, (f, _lazy) in side['lazy_properties'].items()}
+    block_names = [nm for nm, _ in tr['stacks_read']]
+    ctor_param = side['ctor_param_of_field']
+    STK = ['SStart', 'SUpdate', 'SStop']
+    shapes = [None, [], [1], [2, 3]]
+    histories = [[], [0], [1], [2], [0, 1], [2, 0], [0, 1, 2], [1, 1, 2]]
+    per_state = bud(ck, ('sndscript',), 2, len(histories))
+    cases = []
+
+    def observe(text: str) -> list[int]:
+        kv = Keyvalues.parse(text).find_key('S')
+        has_ver = 1 if kv.int('soundentry_version', 1) == 2 else 0
+        has_blk = 1 if 'operator_stacks' in kv else 0
+        out = [has_ver if has_ver == has_blk else 2 + has_ver]
+        blocks = list(kv.find_key('operator_stacks', or_blank=True))
+        out.append(len(blocks))
+        for b in blocks:
+            out.append(block_names.index(b.real_name) if b.real_name in block_names else 9)
+            ids = [int(c.real_name[1:]) for c in b]
+            out += [len(ids), *ids]
+        return out
+
+    def mk(sh):
+        return None if sh is None else Keyvalues('', [Keyvalues(f'k{i}', 'v') for i in sh])
+
+    def opt(sh):
+        return 'None' if sh is None else f'(Some {nl(sh)})'
+    for force in (False, True):
+        for a in shapes:
+            for b in shapes:
+                for c in shapes:
+                    st = [a, b, c]
+                    hs = histories if per_state >= len(histories) else ck.rng.sample(histories, per_state)
+                    for h in hs:
+                        try:
+                            snd = Sound('S', ['x.wav'], force_v2=force, **{ctor_param[f]: mk(sh) for f, sh in zip(fields, st)})
+                            for t in h:
+                                if fields[t] in pub_of:
+                                    getattr(snd, pub_of[fields[t]])
+                            f1 = io.StringIO()
+                            snd.export(f1)
+                            f2 = io.StringIO()
+                            snd.export(f2)
+                            o1, o2 = observe(f1.getvalue()), observe(f2.getvalue())
+                            back = Sound.parse_one(Keyvalues.parse(f1.getvalue()).find_key('S'))
+                            rd = [1 if back.force_v2 else 0]
+                            for f in fields:
+                                v = getattr(back, f)
+                                rd += [0] if v is None else [1 + len(v), *[int(ch.real_name[1:]) for ch in v]]
+                            exp = f'Some ({nl(o1)}, {nl(o2)}, {nl(rd)})'
+                            ck.hist('snd_stacks_case', 'v2' if o1[0] == 1 else 'v1' if o1[0] == 0 else 'mixed')
+                        except Exception as e:
+                            exp = 'None'
+                            ck.hist('snd_stacks_case', 'error:' + type(e).__name__)
+                        cases.append((f'(mkSnd {str(force).lower()} {opt(a)} {opt(b)} {opt(c)}, {coq_list(STK[t] for t in h)}, {exp})',
+                                      {'force_v2': force, 'stacks': st, 'properties_read_first': [pub_of.get(fields[t]) for t in h], 'impl': exp}))
+                        ck.count('snd_stacks_cases')
+                        if any(st) or h:
+                            ck.seen(('sndstk', force, json.dumps(st), tuple(h)))
+    jobs = []
+    for lo in range(0, len(cases), 400):
+        jobs.append((IMP_TXT, ['bad_idx okc 0 ' + coq_list(c for c, _ in cases[lo:lo + 400])], f'sndstk{lo}', PRE_SNDSTK))
+    bad: list[int] = []
+    for lo, vals in zip(range(0, len(cases), 400), (yield jobs)):
+        if vals is None:
+            ck.obligation('correspondence:sndscript-stacks', False, 'model could not be evaluated')
+            ck.tie_broken.append('correspondence soundscript stacks: model evaluation failed')
+            return
+        bad += [lo + i for i in parse_coq_N_list(vals[0])]
+    ck.obligation('correspondence:sndscript-stacks', not bad,
+                  f'{len(cases)} cases = all 128 small states (force flag x each stack None / empty / 1 / 2 children) x {per_state} of {len(histories)} '
+                  f'histories of lazy-property reads: SndStacks.export / parse over the generated census vs Sound.export (first and second export of the '
+                  f'same object) and Sound.parse_one: {len(bad)} disagreements')
+    if bad:
+        ck.tie_broken.append('correspondence soundscript stacks (Fmt/SndStacks.v over Gen/TextFields_gen.v vs Sound.export / parse_one)')
+        ck.extra['snd_stacks_disagreement'] = cases[bad[0]][1]
+
+
+
+def snd_line_census(ck: Ck) -> None:
+    """The other direction of the soundscript line census (Gen/TextFields_gen.v snd_lines, theorems c20_text_line*): every physical
+    line Sound.export really writes is an instance of a template of the census.  The children of the operator stacks are written by
+    Keyvalues.serialise (lines under three tabs that start with a quote or a fourth tab) and are not part of the census."""
+    import re
+    tr = ck.extra.get('translated', {}).get('TextFields_gen', {})
+    tpls = tr.get('sndscript_lines')
+    if not tpls:
+        ck.obligation('correspondence:sndscript-line-census', False, 'no line census')
+        ck.tie_broken.append('correspondence soundscript line census: no census')
+        return
+    text = ''
+    pats: set[str] = set()
+    for tpl in tpls:                       # a template that stops in the middle of a line continues with the next write
+        text += ''.join(p[1] if p[0] == 'lit' else '\0' for p in tpl)
+        if text.endswith('\n'):
+            for phys in text.split('\n')[:-1]:
+                pats.add('(.*)'.join(re.escape(x) for x in phys.split('\0')))
+            text = ''
+    regs = [re.compile(p, re.S) for p in sorted(pats)]
+    fmt = U.FORMATS['sndscript']
+    n = bud(ck, ('sndscript',), 60, 600)
+    bad: list[str] = []
+    lines = 0
+    for _ in range(n):
+        spec = fmt.gen(ck.rng)
+        try:
+            out = fmt.write(fmt.build(spec))
+        except Exception as e:
+            bad.append(f'export raised {e!r}'[:200])
+            continue
+        ck.count('snd_line_census_files')
+        for phys in out.split('\n')[:-1]:
+            if phys.startswith('\t\t\t"') or phys.startswith('\t\t\t\t'):
+                continue
+            lines += 1
+            if not any(r.fullmatch(phys) for r in regs):
+                bad.append(phys[:200])
+    ck.count('snd_line_census_lines', lines)
+    ck.obligation('correspondence:sndscript-line-census', not bad and lines > 0,
+                  f'{lines} physical lines of {n} exported soundscript files (stack children excluded): each is an instance of one of the '
+                  f'{len(regs)} template lines regenerated from Sound.export: {len(bad)} are not')
+    if bad or not lines:
+        ck.tie_broken.append('correspondence soundscript line census (Gen/TextFields_gen.v snd_lines vs the lines Sound.export writes)')
+        ck.extra['snd_line_census_unmatched'] = bad[:5]
+
+
+# ================================================================================================ VMT on-demand quoting
+
+def corr_vmt_quote(ck: Ck) -> None:
+    """`VmtQuote.needs_quotes vmt_nq` vs vmt._needs_quotes on EVERY string of length <= 2 over the delimiters, '/', '#', a letter, a
+    backslash and a non-ASCII character; `VmtQuote.param_line vmt_nq name value` vs the line Material.export writes for generated pairs."""
+    from srctools import vmt as V
+    alpha = sorted(set('"\'{};,=[]()\r\n\t /#a\\$:+*') | {'﻿', '\xe9'})
+    strs = [''] + alpha + [a + b for a in alpha for b in alpha]
+    qcases = []
+    for t in strs:
+        try:
+            r = bool(V._needs_quotes(t))
+        except Exception:
+            r = None
+        qcases.append((t, r))
+        ck.count('vmt_needs_quotes_cases')
+    ck.hist('vmt_needs_quotes', 'all strings of length <= 2 over %d characters' % len(alpha), len(strs))
+    lcases = []
+    pool = ['$basetexture', 'a', '/x', '#x', 'a b', 'x/y', 'a\\b', '[1 2]', '', '{', 'x=y', "it's", 'models/props/tex', '$x[0]', '>=dx90?$x', 'a,b', '﻿z']
+    for _ in range(bud(ck, ('vmt',), 40, 400)):
+        nm = ck.rng.choice([p for p in pool if p.strip()] + [U.rstr(ck.rng, U.VMT_ALPHA, 1, 6)])
+        val = ck.rng.choice(pool + [U.rstr(ck.rng, U.VMT_ALPHA, 0, 8)])
+        if not nm.strip():
+            continue
+        try:
+            m = V.Material('s')
+            m[nm] = val
+            text = U.vmt_write(m)
+            head, tail = 's\n\t{\n', '\t}\n'
+            line = text[len(head):len(text) - len(tail)] if text.startswith(head) and text.endswith(tail) else None
+        except Exception:
+            line = None
+        lcases.append((nm, val, line))
+        ck.count('vmt_param_line_cases')
+        if line is not None and len(line) > 6:
+            ck.seen(('vmtline', nm, val))
+
+    # whole files of parameter-only materials (0-4 parameters with distinct names, shader names with and without a space)
+    fcases = []
+    for _ in range(bud(ck, ('vmt',), 25, 300)):
+        shader = ck.rng.choice(['VertexLitGeneric', 'a', 'Lightmapped_4WayBlend', 'Unlit Generic', 'patch', U.rstr(ck.rng, U.VMT_ALPHA, 1, 6)])
+        params: list[tuple[str, str]] = []
+        for _k in range(ck.rng.choice([0, 1, 2, 3, 4])):
+            nm = ck.rng.choice([p for p in pool if p.strip()] + [U.rstr(ck.rng, U.VMT_ALPHA, 1, 6)])
+            if nm.strip() and nm.casefold() not in {a.casefold() for a, _b in params}:
+                params.append((nm, ck.rng.choice(pool + [U.rstr(ck.rng, U.VMT_ALPHA, 0, 8)])))
+        try:
+            m = V.Material(shader)
+            for a, b in params:
+                m[a] = b
+            text = U.vmt_write(m) if [(v.name, v.value) for v in m._params.values()] == params else None
+        except Exception:
+            text = None
+        fcases.append((shader, params, text))
+        ck.count('vmt_file_cases')
+        ck.hist('vmt_file_params', len(params))
+        if text is not None and len(params) >= 2:
+            ck.seen(('vmtfile', shader, tuple(params)))
+
+    def cs(t: str) -> str:
+        return nl(map(ord, t))
+    e3 = 'bad_idx (fun c : (list N * list (list N * list N)) * option (list N) => onl_eqb (Some (VmtQuote.vmt_file vmt_nq (fst (fst c)) (snd (fst c)))) (snd c)) 0 ' + coq_list(
+        f'(({cs(sh)}, {coq_list(f"({cs(a)}, {cs(b)})" for a, b in ps)}), {"None" if tx is None else "Some " + cs(tx)})' for sh, ps, tx in fcases)
+    e1 = 'bad_idx (fun c : list N * N => N.eqb (if VmtQuote.needs_quotes vmt_nq (fst c) then 1 else 0) (snd c)) 0 ' + coq_list(
+        f'({cs(t)}, {2 if r is None else int(r)})' for t, r in qcases)
+    e2 = 'bad_idx (fun c : (list N * list N) * option (list N) => onl_eqb (Some (VmtQuote.param_line vmt_nq (fst (fst c)) (snd (fst c)))) (snd c)) 0 ' + coq_list(
+        f'(({cs(a)}, {cs(b)}), {"None" if ln is None else "Some " + cs(ln)})' for a, b, ln in lcases)
+    [vals] = yield [(IMP_TXT, [e1, e2, e3], 'vmtquote', PRE)]
+    if vals is None:
+        ck.obligation('correspondence:vmt-quoting', False, 'model could not be evaluated')
+        ck.tie_broken.append('correspondence VMT quoting: model evaluation failed')
+        return
+    b1, b2, b3 = parse_coq_N_list(vals[0]), parse_coq_N_list(vals[1]), parse_coq_N_list(vals[2])
+    ck.obligation('correspondence:vmt-quoting', not b1 and not b2 and not b3,
+                  f'{len(qcases)} strings (all of length <= 2 over {len(alpha)} characters): VmtQuote.needs_quotes over the generated table vs '
+                  f'vmt._needs_quotes: {len(b1)} disagreements; {len(lcases)} (name, value) pairs: VmtQuote.param_line vs the line Material.export '
+                  f'writes: {len(b2)} disagreements; {len(fcases)} parameter-only materials (0-4 parameters): VmtQuote.vmt_file vs the whole '
+                  f'exported file: {len(b3)} disagreements')
+    if b1 or b2 or b3:
+        ck.tie_broken.append('correspondence VMT quoting (Fmt/VmtQuote.v over Gen/TextFields_gen.v vs vmt._needs_quotes / Material.export)')
+        ck.extra['vmt_quote_disagreement'] = {'string': qcases[b1[0]][0], 'impl': qcases[b1[0]][1]} if b1 else \
+            {'name': lcases[b2[0]][0], 'value': lcases[b2[0]][1], 'impl_line': lcases[b2[0]][2]} if b2 else \
+            {'shader': fcases[b3[0]][0], 'params': fcases[b3[0]][1], 'impl_file': fcases[b3[0]][2]}
 
 
 # ================================================================================================ binary choreo correspondence
@@ -721,7 +1016,7 @@ def cb_scene_value(sc, pool: list[str]) -> str:
 def corr_choreo_bin(ck: Ck) -> None:
     """`enc (scene_lay ...)` of Fmt/ChoreoBin.v vs Scene.export_binary, byte for byte, and `dec` of those bytes gives the value back."""
     from srctools import binformat
-    n = ck.budget(40, 400)
+    n = bud(ck, ('vcd-binary',), 40, 400)
     cases = []
     impl_errors: list[dict] = []
     for _ in range(n):
@@ -761,7 +1056,7 @@ def corr_choreo_bin(ck: Ck) -> None:
         part = cases[lo:lo + 20]
         jobs.append((IMP_CB, ['bad_idx okcase 0 ' + coq_list(f'({v}, {nl(d)})' for v, d, _ in part)], f'cbenc{lo}', pre))
     bad: list[int] = []
-    for lo, vals in zip(range(0, len(cases), 20), par_eval(ck, jobs)):
+    for lo, vals in zip(range(0, len(cases), 20), (yield jobs)):
         if vals is None:
             ck.obligation('correspondence:vcd-binary-layout', False, 'model could not be evaluated')
             ck.tie_broken.append('correspondence binary choreo layout: model evaluation failed')
@@ -781,7 +1076,7 @@ def corr_summary(ck: Ck) -> None:
     """`summary_of` of Fmt/SceneSummary.v vs Entry.from_scene on generated binary scenes (float32 times, exact)."""
     from fractions import Fraction
     from srctools.choreo import Entry, EventType, CaptionType, SpeakEvent
-    n = ck.budget(60, 600)
+    n = bud(ck, ('scenes-image',), 60, 600)
     cases = []
     SC = 2 ** 160
 
@@ -841,7 +1136,7 @@ def corr_summary(ck: Ck) -> None:
         jobs.append((['Coq.Lists.List', 'Coq.NArith.NArith', 'Coq.Bool.Bool', 'SV.Fmt.SceneSummary'],
                      ['bad_idx okc 0 ' + coq_list(c for c, _ in cases[lo:lo + 60])], f'summary{lo}', pre))
     bad: list[int] = []
-    for lo, vals in zip(range(0, len(cases), 60), par_eval(ck, jobs)):
+    for lo, vals in zip(range(0, len(cases), 60), (yield jobs)):
         if vals is None:
             ck.obligation('correspondence:scene-summary', False, 'model could not be evaluated')
             ck.tie_broken.append('correspondence scene summary: model evaluation failed')
@@ -935,6 +1230,37 @@ def search_format(ck: Ck, name: str, n: int) -> None:
         ck.violation(key, f'{name}: {r2[0]} ({r2[1]}): write -> read -> compare -> write again fails on a representable value',
                      {'format': name, 'spec': small, 'result': [r2[0], r2[1], r2[2]],
                       'how': f'harness.c20_util.roundtrip(FORMATS[{name!r}], spec)'})
+
+
+OBSERVER_QUICK = {'cmdseq': 40, 'smd': 80, 'sndscript': 300, 'vmt': 150, 'pcf': 30, 'vcd-text': 50, 'vcd-binary': 50, 'scenes-image': 5}
+
+
+def observer_search(ck: Ck, name: str, n: int) -> None:
+    """Histories with a bystander: read every property (lazy ones included) of the value, or write it once, before writing it --
+    the output must be the same (harness.c20_util.observer_check)."""
+    fmt = U.FORMATS[name]
+    found: dict[str, tuple] = {}
+    for _ in range(n):
+        spec = fmt.gen(ck.rng)
+        ck.count(f'observer_{name}')
+        res = U.observer_check(fmt, spec)
+        ck.hist('observer_' + name, 'same' if res is None else res[0])
+        if res is None:
+            continue
+        kind = (res[0], res[1])
+        key = f'{name}:{res[0]}:{res[1]}'
+        if key in found:
+            continue
+
+        def fails(sp, kind=kind):
+            q = U.observer_check(fmt, sp)
+            return q is not None and (q[0], q[1]) == kind
+        small = U.shrink_spec(spec, fails, budget=120) if len(found) < 4 else spec
+        found[key] = (small, U.observer_check(fmt, small) or res)
+    for key, (small, r) in found.items():
+        ck.violation(key, f'{name}: {r[0]} ({r[1]}): what is written depends on whether the value was looked at (or written) before',
+                     {'format': name, 'oracle': 'observer', 'spec': small, 'result': [r[0], r[1], r[2]],
+                      'how': f'harness.c20_util.observer_check(FORMATS[{name!r}], spec)'})
 
 
 def independent_summary(sc) -> tuple[int, int, list[str]]:
@@ -1090,7 +1416,7 @@ def sample_files(ck: Ck) -> None:
 
 # ================================================================================================ main
 
-QUICK = {'cmdseq': 150, 'smd': 500, 'sndscript': 500, 'vmt': 600, 'pcf': 300, 'vcd-text': 160, 'vcd-binary': 400, 'scenes-image': 50}
+QUICK = {'cmdseq': 150, 'smd': 500, 'sndscript': 500, 'vmt': 600, 'pcf': 300, 'vcd-text': 160, 'vcd-binary': 400, 'scenes-image': 40}
 THOROUGH_FACTOR = {'vcd-text': 25, 'scenes-image': 24}
 
 
@@ -1108,10 +1434,15 @@ def run(ck: Ck) -> None:
                '(harness/c20_util.py documents each alphabet); a case is distinct by its full spec and counted as non-trivial '
                'when the spec is longer than 150 characters (it has at least one record with optional parts); correspondence cases '
                '(cmdseq, scenes.image container, scenes.image pool+sort, binary scene layout, scene summary) are distinct by file bytes / spec '
-               'and non-trivial when they contain a command / two entries / more than 60 bytes / two events')
+               'and non-trivial when they contain a command / two entries / more than 60 bytes / two events; soundscript stack cases are '
+               'the complete small scope (state x history), VMT quoting cases every string of length <= 2 over the delimiter alphabet, '
+               'parameter lines longer than 6 characters and whole files with at least two parameters')
     ck.trusted.append('hand-written models Fmt/CmdSeq.v, Fmt/ScenesImage.v, Fmt/ScenesImageCfg.v (writer over the generated configuration), '
                       'Fmt/ChoreoBin.v (layouts), Fmt/SceneSummary.v: tied by byte-exact / value-exact differential correspondence on every run; '
                       'the layouts additionally by kernel-checked equality of their width paths with the paths regenerated from choreo.py')
+    ck.trusted.append('hand-written models Fmt/SndStacks.v (lazy operator stacks of Sound over the regenerated census) and Fmt/VmtQuote.v '
+                      '(quoting decision, parameter line, file of a parameter-only material over the regenerated table): exhaustive small-scope / '
+                      'generated differential correspondence with Sound.export / parse_one and vmt._needs_quotes / Material.export on every run')
     ck.trusted.append('KV/KvLex.v (tokenizer model of C01) for the quoted-field theorems; the escape table is tied to tokenizer.py by C01')
     ck.trusted.append('CPython struct (float32 conversion of the version tag and of scene times), lzma and zlib.crc32 (outside the models)')
     ck.assumptions += [
@@ -1121,8 +1452,10 @@ def run(ck: Ck) -> None:
         'binary choreo layouts work on raw field values: float32 bit patterns, the byte / 16-bit value already quantised, pool indexes; '
         'the quantisation round(v*255) and the string pool lookups are exercised by the search, not modelled',
         'text writers: the string mode of srctools.tokenizer.Tokenizer is the same code for every configuration with escapes enabled '
-        '(Keyvalues.parse for soundscripts, plain Tokenizer for text choreo scenes); VMT is read with escapes disabled: its census is an '
-        'obligation only, the lexing theorem is not claimed for it',
+        '(Keyvalues.parse for soundscripts, plain Tokenizer for text choreo scenes); VMT is read with escapes disabled: the VMT theorems use the tokenizer '
+        'model in its bare-string mode (no escapes involved) and, for quoted strings, restrict to strings without backslash, where '
+        'reading with and without escapes is the same; the bare-string loop is the same code for every Tokenizer configuration without '
+        'the colon / plus operators (Material.parse uses none)',
         'scene summary: event times are non-negative float32 values (value * 1000.0 is then exact in double arithmetic)',
         'PCF: element UUIDs are fresh random values on every export (Particle has no UUID field); second-generation identity is checked with srctools.dmx.get_uuid replaced by a counter',
         'representable alphabets exclude: NUL / non-ASCII / over-long strings (cmdseq); quotes, comment starters and file extensions in SMD names; '
@@ -1140,6 +1473,32 @@ def run(ck: Ck) -> None:
                      + (['Gen/ChoreoBin_gen.vo'] if ok5 else []))
     lap('translate+build')
     finish_theorems = theorems_async(ck, 'Props/C20.v') if built else None
+    # the correspondences are generators: they build their cases (Python, consuming ck.rng in a fixed order), yield the Coq jobs, and
+    # record their obligation when the results are sent back.  The jobs of all of them run in a thread pool while the next ones
+    # are being generated; `collect` joins in launch order, so records and outcome are deterministic.
+    from concurrent.futures import ThreadPoolExecutor
+    pool = ThreadPoolExecutor(max_workers=8)
+    pending: list[tuple] = []
+
+    def launch(gen) -> None:
+        try:
+            jobs = next(gen)
+        except StopIteration:
+            return
+        pending.append((gen, [pool.submit(lambda j=j: ck.coq_eval(j[0], j[1], name=j[2], preamble=j[3])) for j in jobs]))
+
+    def collect() -> None:
+        for gen, futs in pending:
+            res = [f.result() for f in futs]
+            while True:
+                try:
+                    jobs = gen.send(res)
+                except StopIteration:
+                    break
+                res = par_eval(ck, jobs)
+        pending.clear()
+        pool.shutdown()
+
     def tie(res: dict, what: str) -> None:
         if not all(res.values()):
             ck.tie_broken.append(f'instance obligations about {what} fail: ' + ', '.join(k for k, v in res.items() if not v))
@@ -1156,10 +1515,11 @@ def run(ck: Ck) -> None:
             'cmdseq_cfg_ok': 'cfg_okb gen_cfg',
         }, name='cs'), 'cmdseq.py')
         lap('instance-cmdseq')
-        files = corr_cmdseq_write(ck)
-        lap('corr-cmdseq-write')
-        corr_cmdseq_parse(ck, files)
-        lap('corr-cmdseq-parse')
+        files: list[tuple[dict, bytes]] = []
+        launch(corr_cmdseq_write(ck, files))
+        lap('gen-cmdseq-write')
+        launch(corr_cmdseq_parse(ck, files))
+        lap('gen-cmdseq-parse')
     # the three template / path censuses are evaluated by one coqc (fewer processes); a failing group is named by its obligations
     m_imps: list[str] = []
     m_obs: dict[str, str] = {}
@@ -1185,12 +1545,25 @@ def run(ck: Ck) -> None:
             'sndscript_no_escape_outside_quotes': 'no_escape_outside_quotes snd_fields',
             'sndscript_every_stack_block_written_from_the_attribute_it_is_read_into': 'stacks_paired snd_stacks_written snd_stacks_read',
             'sndscript_field_census_nonempty': 'Nat.leb 5 (length snd_fields) && Nat.leb 3 (length snd_stacks_written)',
+            'sndscript_version_2_test_does_not_ask_whether_a_lazy_stack_exists': 'SndStacks.guard_no_presence_test snd_v2_guard',
+            'sndscript_version_2_test_covers_the_force_flag_and_every_stack': 'SndStacks.guard_covers_force snd_v2_guard && SndStacks.guard_covers_every_stack snd_v2_guard',
+            'sndscript_every_stack_block_written_iff_it_has_children_from_its_own_stack_under_its_own_name': 'SndStacks.blocks_okb snd_stack_blocks',
+            'sndscript_version_2_keys_and_stacks_block_written_together_and_read_that_way':
+                'snd_v2_test_writes_version_2_and_the_stacks_block && snd_reader_force_is_version_eq_2 && snd_reader_stacks_exist_iff_block_present',
+            'sndscript_stack_census_ok': 'SndStacks.guard_okb snd_v2_guard && SndStacks.blocks_okb snd_stack_blocks',
+            'sndscript_every_written_line_is_made_of_self_delimiting_items': 'Nat.eqb snd_lines_unstructured 0 && Nat.leb 10 (length snd_lines)',
+            'sndscript_every_written_line_has_bare_keywords_followed_by_whitespace_and_quoted_fields': 'forallb TextLines.items_ok snd_lines',
             'vmt_free_text_quoted_or_quoted_on_demand_except_shader': 'free_text_quoted_or_on_demand 1 vmt_fields',
             'vmt_field_census_nonempty': 'Nat.leb 5 (length vmt_fields)',
+            'vmt_needs_quotes_covers_empty_comment_directive_and_every_delimiter': 'VmtQuote.nq_okb vmt_nq',
+            'vmt_parameter_line_is_tab_name_space_value_newline_both_quoted_on_demand': 'vmt_param_line_is_tab_name_space_value_newline',
+            'vmt_parameter_line_writes_the_name_attribute_then_the_value_attribute': 'vmt_param_line_writes_the_name_attribute_then_the_value_attribute',
+            'vmt_file_is_shader_line_open_brace_parameter_lines_close_brace': 'vmt_file_is_shader_brace_parameter_lines_brace',
             'vcd_text_free_text_escaped_and_quoted': 'free_text_escaped cho_fields',
             'vcd_text_no_escape_outside_quotes': 'no_escape_outside_quotes cho_fields',
             'vcd_text_block_keywords_are_literals_outside_quotes': 'keywords_bare cho_fields',
             'vcd_text_field_census_nonempty': 'Nat.leb 40 (length cho_fields)',
+            'vcd_text_whole_item_lines_have_bare_keywords_followed_by_whitespace_and_quoted_fields': 'forallb TextLines.items_ok cho_lines && Nat.leb 40 (length cho_lines)',
         })
     if built and ok5:
         m_imps += IMP_CB
@@ -1210,15 +1583,21 @@ def run(ck: Ck) -> None:
     if m_obs:
         tie(ck.instance_obligations(list(dict.fromkeys(m_imps)), m_obs, name='tpl'), ' / '.join(m_what))
     lap('instance-smd+text+choreo-bin')
+    if built and ok4:
+        launch(corr_snd_stacks(ck))
+        launch(corr_vmt_quote(ck))
+    if built and ok4:
+        snd_line_census(ck)
+    lap('gen-snd-stacks+vmt-quote+line-census')
     if built and ok5:
-        corr_choreo_bin(ck)
-    lap('corr-choreo-bin')
+        launch(corr_choreo_bin(ck))
+    lap('gen-choreo-bin')
     if built:
-        corr_summary(ck)
-    lap('corr-summary')
+        launch(corr_summary(ck))
+    lap('gen-summary')
     if built:
-        corr_image(ck)
-    lap('corr-image')
+        launch(corr_image(ck))
+    lap('gen-image')
     if built and ok3:
         c = 'si_gen_cfg'
         tie(ck.instance_obligations(IMP_IMGCFG, {
@@ -1242,18 +1621,24 @@ def run(ck: Ck) -> None:
             'image_cfg_ok': f'icfg_okb {c}',
         }, name='imgcfg'), 'choreo.py save_scenes_image_sync / parse_scenes_image')
         lap('instance-image')
-        corr_image_pool(ck)
-        lap('corr-image-pool')
+        launch(corr_image_pool(ck))
+        lap('gen-image-pool')
+    collect()
+    lap('correspondences(join)')
     if finish_theorems is not None:
         finish_theorems()
     lap('print-assumptions(join)')
     # ---- search (always; larger when a tie is broken)
     for name, q in QUICK.items():
-        search_format(ck, name, ck.budget(q, q * THOROUGH_FACTOR.get(name, 25)))
+        search_format(ck, name, bud(ck, FAMILIES if name == 'pcf' else (name,), q, q * THOROUGH_FACTOR.get(name, 25)))
         lap('search-' + name)
-    image_extra(ck, ck.budget(15, 150))
+    for name, q in OBSERVER_QUICK.items():
+        observer_search(ck, name, bud(ck, (name,), q, q * 20))
+    lap('observer-histories')
+    image_extra(ck, bud(ck, ('scenes-image',), 15, 150))
     sample_files(ck)
     lap('image-invariants+samples')
+    escalated(ck)
     ck.sample({'smd_lines_from_source': ck.extra.get('translated', {}).get('SmdTpl_gen', {}).get('lines', [])[:6]})
     # ---- broken obligations explained by concrete inputs
     keys = [v['key'] for v in ck.violations]
@@ -1272,6 +1657,11 @@ def run(ck: Ck) -> None:
         if any(k.startswith(pre) and not k.endswith('flex-animation-block') for k in keys):
             ck.explain(ob)
             ck.explain('translate:TextFields_gen')
+            if pre == 'sndscript:':
+                ck.explain('correspondence:sndscript-stacks')
+                ck.explain('correspondence:sndscript-line-census')
+            if pre == 'vmt:':
+                ck.explain('correspondence:vmt-quoting')
     if any(k.startswith('scenes-image:') for k in keys):
         ck.explain('correspondence:scenes-image')
         ck.explain('instance:image_')
@@ -1282,7 +1672,7 @@ def replay(data: dict) -> int:
     r = data['replay']
     if isinstance(r, dict) and 'spec' in r and r.get('format') in U.FORMATS:
         fmt = U.FORMATS[r['format']]
-        res = U.roundtrip(fmt, r['spec'])
+        res = U.observer_check(fmt, r['spec']) if r.get('oracle') == 'observer' else U.roundtrip(fmt, r['spec'])
         print('spec   :', json.dumps(r['spec'])[:2000])
         try:
             out = fmt.write(fmt.build(r['spec']))
